@@ -40,6 +40,9 @@ def mk_id(code, scheme):
     if scheme == "sepstr":    # strings with characters str.splitlines() / str.split() treat as separators, inside the name
         names = ["p\u2028q", "a\x85b", "c\x1dd", "e\rf", "k\u2029l", "m\x1cn", "o\x1ep", "g\x0bh", "i\x0cj"]
         return names[code] if code < len(names) else "n\x85%d" % code
+    if scheme == "flt":       # float ids that need all 17 significant digits, tiny and huge ones: files are read with nodetype=float
+        vals = [0.1 + 0.2, 0.3, 1 / 3, 2 / 3, 2.5, 1e-7, 123456789.12345679, -0.5, 1e22, 0.1]
+        return vals[code] if code < len(vals) else code + 0.1 + 0.2
     if scheme == "hstr":      # hashtag-like strings: the default comment marker inside the name (files are then read with comments='%')
         names = ["#a", "#b7", "c#", "#", "##d", "e", "#f#", "g#h", "#1"]
         return names[code] if code < len(names) else "#n%d" % code
@@ -105,7 +108,10 @@ def tok(x):
         return None
     if _TNP:
         import numpy as np
-        return np.int64(int(x))
+        v = int(x)
+        if _TNP == 2 and 0 <= v < 2 ** 31:
+            return np.uint32(v) if v % 2 else np.uint64(v)       # ids taken from an unsigned column of an event table
+        return np.int64(v)
     return int(x)
 
 
@@ -172,13 +178,20 @@ class Impl:
 
     def pres(self, G, lo, hi):
         C = self.C
+
+        def qt(t):
+            # query instants are integers of any kind: numpy integers when the history used them
+            if _TNP and t % 3 == 0:
+                import numpy as np
+                return np.uint32(t) if (_TNP == 2 and 0 <= t < 2 ** 31) else np.int64(t)
+            return t
         univ = sorted(C(n) for n in G._node) + [99]
         out = []
         for a in univ:
             for b in univ:
                 u, v = self.I(a), self.I(b)
                 flat = 1 if G.has_interaction(u, v) else 0
-                ts = [t for t in range(lo, hi + 1) if (G.has_interaction(u, v, t) if t % 2 else G.has_interaction(u, v, t=t))]
+                ts = [t for t in range(lo, hi + 1) if (G.has_interaction(u, v, qt(t)) if t % 2 else G.has_interaction(u, v, t=qt(t)))]
                 if flat or ts:
                     out.append([a, b, flat, ts])
         return out
@@ -467,6 +480,14 @@ class Impl:
             H = G.time_slice(int(a), int(b)) if (int(a) + int(b)) % 2 else G.time_slice(t_from=int(a), t_to=int(b))
         assert H is not G
         self.slots[int(dst)] = H
+        # node attributes are carried whatever their NAMES are (any hashable: a year, a tuple), impl-only cross check
+        import copy
+        G2 = copy.deepcopy(G)
+        for n in G2._node:
+            G2._node[n][2020] = "y"; G2._node[n][("k", 1)] = 2
+        H2 = G2.time_slice(int(a)) if b == "-" else G2.time_slice(int(a), int(b))
+        if any(H2._node[n].get(2020) != "y" or H2._node[n].get(("k", 1)) != 2 for n in H2._node) or set(H2._node) != set(H._node):
+            return "attributes-with-non-string-names-not-carried"
         return "ok"
 
     def op_fslice(self, src, dst, a, b):
@@ -588,7 +609,7 @@ class Impl:
             d = "," if not any("," in str(n) for n in G._node) else ";"       # a delimiter must not occur inside a label
         wr = _el.write_interactions if kind else _el.write_snapshots
         rd = _el.read_interactions if kind else _el.read_snapshots
-        nt = int if self.ids == "int" else (str if self.ids == "dstr" else None)
+        nt = int if self.ids == "int" else (str if self.ids == "dstr" else (float if self.ids == "flt" else None))
         tmp = tempfile.mkdtemp(prefix="dxverif")
         try:
             p = os.path.join(tmp, "g.txt" + ["", ".gz", ".bz2", ""][target])
@@ -630,7 +651,7 @@ class Impl:
             f = line.split(d)
             if len(f) != (4 if kind else 3):
                 return "bad-row:" + line
-            conv = (lambda x: int(x)) if self.ids == "int" else (lambda x: self.C(x))
+            conv = (lambda x: int(x)) if self.ids == "int" else ((lambda x: self.C(float(x))) if self.ids == "flt" else (lambda x: self.C(x)))
             a, b = conv(f[0]), conv(f[1])
             if kind:
                 if f[2] not in "+-":
@@ -992,6 +1013,15 @@ class Impl:
         acyc = 1 if nx.is_directed_acyclic_graph(DG) else 0
         # window bounds are compared with the ids, they need not be ids nor integers: a bound half a unit further out selects the same
         # instants (same DAG) as long as it stays inside [first id, last id], and raises ValueError as soon as it leaves that range
+        if v is not None and self.ids == "int":
+            # an id that is equal to the stored one but of another type (3.0 for 3): whatever is returned as targets / sources
+            # must be nodes of the returned DAG
+            try:
+                DG3, src3, tgt3, _, _ = _paths.temporal_dag(G, self.I(int(u)), float(self.I(v)), tok(a), tok(b))
+                if any(x not in DG3 for x in list(tgt3) + list(src3)):
+                    return "targets-or-sources-not-in-the-dag"
+            except ValueError:
+                pass
         ids = G.temporal_snapshots_ids()
         a0, b0 = tok(a), tok(b)
         if ids and a0 is not None and b0 is not None and max(abs(a0), abs(b0)) < 2 ** 40:
@@ -1119,8 +1149,8 @@ class Impl:
         from dynetx.algorithms.assortativity import delta_conformity
         rest = list(rest); al = []
         for _ in range(int(na)):
-            al.append(int(rest[0]) / 100.0)
-            del rest[:2 + 2 * int(rest[1])]
+            al.append(int(rest[0]) / 1000.0)
+            del rest[:3 + 2 * int(rest[2])]
         PT = ["shortest", "fastest", "foremost", "fastest_shortest", "shortest_fastest"][int(ptype)]
         return self._conf_out(delta_conformity(self.G(s), int(start), int(delta), al, ["a"], path_type=PT))
 
@@ -1289,7 +1319,7 @@ class Impl:
 def run_case(lines, ids="int", tnp=False):
     import contextlib
     global _TNP
-    _TNP = bool(tnp)
+    _TNP = int(tnp) if tnp else 0
     im = Impl(ids)
     with contextlib.redirect_stderr(io.StringIO()):
         return im.run(lines)
